@@ -52,9 +52,19 @@ def fnnls_cholesky(
 
     if P_initial.shape[0] != 0:
         P_number = np.arange(len(P), dtype="int")
-        P_inorder = P_number[P_initial]
-        s_chol[P] = lstsq((ZTZ)[P][:, P], (ZTx)[P])
-        d = s_chol.clip(min=0)
+        if np.any(P):
+            s_chol[P] = lstsq((ZTZ)[P][:, P], (ZTx)[P])
+        # The warm-start guess is only a valid passive set if its sub-solution is strictly positive:
+        # drop the non-positive entries and re-solve until it is, so that (d, w) below is a state
+        # the main loop may start from (d >= 0, d = 0 off P, zero gradient on P).
+        while np.any(P) and np.min(s_chol[P]) <= tolerance:
+            P[s_chol <= tolerance] = False
+            s_chol[:] = 0.0
+            if np.any(P):
+                s_chol[P] = lstsq((ZTZ)[P][:, P], (ZTx)[P])
+        P_inorder = P_number[P]
+        d = s_chol.copy()
+        w = ZTx - (ZTZ) @ d
     else:
         P_inorder = np.array([], dtype="int")
 
